@@ -1,9 +1,9 @@
 import OdxVerif.Proofs.CompTrunc2Erase
 /-! C05, nested tier, second part (task W26): the invariant of the ghost log.
     `LState.Inv`: every logged request that was not made inside an end-marker probe lies inside the message.
-    `Good m`: started in a state with `Inv`, `m` keeps the message and the probe flag, returns in a state with `Inv`, and if it
+    `LGood m`: started in a state with `Inv`, `m` keeps the message and the probe flag, returns in a state with `Inv`, and if it
     raises from a state without `Inv` then what it raises is `DecodeError` (and we are not inside a probe).
-    `good_decode_all`: every decoding function of the instrumented decoder is `Good` — all descriptions, all states, both
+    `lgood_decode_all`: every decoding function of the instrumented decoder is `LGood` — all descriptions, all states, both
     modes, by induction on the fuel.  Core Lean only. -/
 namespace OdxVerif.Codec
 open OdxVerif.OdxM OdxVerif.Bits
@@ -15,25 +15,25 @@ theorem LState.Inv.of_eq {ls ls' : LState} (h : ls.Inv) (hl : ls'.log = ls.log) 
   intro e he hp
   rw [hl] at he; rw [hm]; exact h e he hp
 
-def Good {α : Type} (m : LogM α) : Prop := ∀ ls b, ls.Inv →
+def LGood {α : Type} (m : LogM α) : Prop := ∀ ls b, ls.Inv →
   match m ls b with
   | .ok (_, ls') => ls'.Inv ∧ ls'.probe = ls.probe ∧ ls'.st.msg = ls.st.msg
   | .error (e, ls') => ls'.st.msg = ls.st.msg ∧ (ls'.Inv ∨ (e = .decode ∧ ls.probe = false))
 
-theorem good_pure {α} (a : α) : Good (Pure.pure a : LogM α) := fun _ _ h => ⟨h, rfl, rfl⟩
-theorem good_pure' {α} (a : α) : Good (OdxM.pure a : LogM α) := fun _ _ h => ⟨h, rfl, rfl⟩
-theorem good_raise {α} (e : Err) : Good (raise e : LogM α) := fun _ _ h => ⟨rfl, .inl h⟩
-theorem good_odxraise (e : Err) : Good (odxraise e : LogM Unit) := by
+theorem lgood_pure {α} (a : α) : LGood (Pure.pure a : LogM α) := fun _ _ h => ⟨h, rfl, rfl⟩
+theorem lgood_pure' {α} (a : α) : LGood (OdxM.pure a : LogM α) := fun _ _ h => ⟨h, rfl, rfl⟩
+theorem lgood_raise {α} (e : Err) : LGood (raise e : LogM α) := fun _ _ h => ⟨rfl, .inl h⟩
+theorem lgood_odxraise (e : Err) : LGood (odxraise e : LogM Unit) := by
   intro ls b h; cases b
   · exact ⟨h, rfl, rfl⟩
   · exact ⟨rfl, .inl h⟩
-theorem good_odxassert (c : Bool) : Good (odxassert c : LogM Unit) := by
+theorem lgood_odxassert (c : Bool) : LGood (odxassert c : LogM Unit) := by
   unfold odxassert; split
-  · exact good_pure' ()
-  · exact good_odxraise _
+  · exact lgood_pure' ()
+  · exact lgood_odxraise _
 
 /-- a model computation that keeps the message, lifted -/
-theorem good_liftD {α} (m : DecM α) (hk : Keeps m) : Good (liftD m) := by
+theorem lgood_liftD {α} (m : DecM α) (hk : Keeps m) : LGood (liftD m) := by
   intro ls b h
   unfold liftD
   cases hm : m ls.st b with
@@ -45,10 +45,10 @@ theorem good_liftD {α} (m : DecM α) (hk : Keeps m) : Good (liftD m) := by
     obtain ⟨e, s⟩ := p
     have := hk.error hm
     exact ⟨this, .inl (h.of_eq rfl this)⟩
-theorem good_getD : Good getD := good_liftD _ keeps_getS
-theorem good_modD (f : DecState → DecState) (hf : ∀ s, (f s).msg = s.msg) : Good (modD f) := good_liftD _ (keeps_modifyS f hf)
+theorem lgood_getD : LGood getD := lgood_liftD _ keeps_getS
+theorem lgood_modD (f : DecState → DecState) (hf : ∀ s, (f s).msg = s.msg) : LGood (modD f) := lgood_liftD _ (keeps_modifyS f hf)
 
-theorem good_bind' {α β} (m : LogM α) (f : α → LogM β) (hm : Good m) (hf : ∀ a, Good (f a)) : Good (OdxM.bind m f) := by
+theorem lgood_bind' {α β} (m : LogM α) (f : α → LogM β) (hm : LGood m) (hf : ∀ a, LGood (f a)) : LGood (OdxM.bind m f) := by
   intro ls b h
   unfold OdxM.bind
   have h1 := hm ls b h
@@ -72,14 +72,14 @@ theorem good_bind' {α β} (m : LogM α) (f : α → LogM β) (hm : Good m) (hf 
       rcases h2.2 with hi | ⟨he, hp⟩
       · exact .inl hi
       · exact .inr ⟨he, p1 ▸ hp⟩
-theorem good_bind {α β} (m : LogM α) (f : α → LogM β) (hm : Good m) (hf : ∀ a, Good (f a)) : Good (m >>= f) :=
-  good_bind' m f hm hf
-theorem good_ite {α} (c : Prop) [Decidable c] (a b : LogM α) (ha : Good a) (hb : Good b) : Good (if c then a else b) := by
+theorem lgood_bind {α β} (m : LogM α) (f : α → LogM β) (hm : LGood m) (hf : ∀ a, LGood (f a)) : LGood (m >>= f) :=
+  lgood_bind' m f hm hf
+theorem lgood_ite {α} (c : Prop) [Decidable c] (a b : LogM α) (ha : LGood a) (hb : LGood b) : LGood (if c then a else b) := by
   split <;> assumption
 
 /-- the probe: whatever is requested inside is tagged, so the handler starts from a state with `Inv` -/
-theorem good_probeL {α} (m : LogM α) (handles : Err → Bool) (h : Err → LogM α) (hm : Good m) (hh : ∀ e, Good (h e)) :
-    Good (probeL m handles h) := by
+theorem lgood_probeL {α} (m : LogM α) (handles : Err → Bool) (h : Err → LogM α) (hm : LGood m) (hh : ∀ e, LGood (h e)) :
+    LGood (probeL m handles h) := by
   intro ls b hi
   unfold probeL
   have h1 := hm { ls with probe := true } b (hi.of_eq rfl rfl)
@@ -127,7 +127,7 @@ theorem extractCore_fits (bl : Nat) (bt : BaseType) (enc : Option Enc) (hl : Boo
   · left; omega
 
 /-- the logging wrapper of `extractCore` -/
-theorem good_extractCoreL (bl : Nat) (bt : BaseType) (enc : Option Enc) (hl : Bool) : Good (extractCoreL bl bt enc hl) := by
+theorem lgood_extractCoreL (bl : Nat) (bt : BaseType) (enc : Option Enc) (hl : Bool) : LGood (extractCoreL bl bt enc hl) := by
   intro ls b hi
   have hrun : extractCoreL bl bt enc hl ls b =
       liftD (extractCore bl bt enc hl) { ls with log := ⟨ls.st.cursorByte, ls.st.readEnd bl, ls.probe⟩ :: ls.log } b := rfl
@@ -167,72 +167,72 @@ theorem good_extractCoreL (bl : Nat) (bt : BaseType) (enc : Option Enc) (hl : Bo
       · cases hpe
       · exact hi e he hpe
 
-attribute [irreducible] Good
+attribute [irreducible] LGood
 
-macro "good_step" : tactic =>
+macro "lgood_step" : tactic =>
   `(tactic| first
-    | exact good_pure _ | exact good_pure' _ | exact good_raise _ | exact good_odxraise _ | exact good_odxassert _
-    | exact good_getD | exact good_modD _ (fun _ => rfl)
+    | exact lgood_pure _ | exact lgood_pure' _ | exact lgood_raise _ | exact lgood_odxraise _ | exact lgood_odxassert _
+    | exact lgood_getD | exact lgood_modD _ (fun _ => rfl)
     | assumption
-    | apply good_bind | apply good_bind' | apply good_ite
+    | apply lgood_bind | apply lgood_bind' | apply lgood_ite
     | intro _)
-macro "good1" : tactic => `(tactic| first
-    | good_step | split | dsimp only
+macro "lgood1" : tactic => `(tactic| first
+    | lgood_step | split | dsimp only
     | (simp only [Nat.succ_eq_add_one, Nat.add_right_cancel_iff] at *; subst_vars))
 
-theorem good_extractAtomicL (bl : Nat) (bt : BaseType) (enc : Option Enc) (hl : Bool) : Good (extractAtomicL bl bt enc hl) := by
+theorem lgood_extractAtomicL (bl : Nat) (bt : BaseType) (enc : Option Enc) (hl : Bool) : LGood (extractAtomicL bl bt enc hl) := by
   unfold extractAtomicL
-  repeat (first | exact good_extractCoreL _ _ _ _ | good1)
+  repeat (first | exact lgood_extractCoreL _ _ _ _ | lgood1)
 
-theorem good_unapplyMask (m : Nat) (c : Bool) (v : IVal) : Good (unapplyMask m c v : LogM IVal) := by
+theorem lgood_unapplyMask (m : Nat) (c : Bool) (v : IVal) : LGood (unapplyMask m c v : LogM IVal) := by
   unfold unapplyMask
-  cases v <;> simp only [] <;> repeat good1
+  cases v <;> simp only [] <;> repeat lgood1
 
-macro "good2" : tactic => `(tactic| first
-    | exact good_extractAtomicL _ _ _ _ | exact good_unapplyMask _ _ _ | good1)
+macro "lgood2" : tactic => `(tactic| first
+    | exact lgood_extractAtomicL _ _ _ _ | exact lgood_unapplyMask _ _ _ | lgood1)
 
-theorem good_decodeDctL (dct : Dct) : Good (decodeDctL dct) := by
+theorem lgood_decodeDctL (dct : Dct) : LGood (decodeDctL dct) := by
   unfold decodeDctL
   cases dct with
-  | std bt enc hl bl mask c => cases mask <;> simp only [] <;> repeat good2
-  | minmax bt enc hl mn mx t => simp only []; repeat good2
-  | leading bt enc hl bl => simp only []; repeat good2
-  | paramLen bt enc hl key => simp only []; repeat good2
+  | std bt enc hl bl mask c => cases mask <;> simp only [] <;> repeat lgood2
+  | minmax bt enc hl mn mx t => simp only []; repeat lgood2
+  | leading bt enc hl bl => simp only []; repeat lgood2
+  | paramLen bt enc hl key => simp only []; repeat lgood2
 
-theorem good_methodI2P (arith : Err) (m : Compu.Method) (i : Compu.Val) :
-    Good (methodI2P arith m i : LogM (Option Compu.Val)) := by
+theorem lgood_methodI2P (arith : Err) (m : Compu.Method) (i : Compu.Val) :
+    LGood (methodI2P arith m i : LogM (Option Compu.Val)) := by
   unfold methodI2P
-  cases m <;> simp only [] <;> repeat good1
+  cases m <;> simp only [] <;> repeat lgood1
 
-theorem good_dopI2P (m : Compu.Method) (v : IVal) : Good (dopI2P m v : LogM (Option IVal)) := by
+theorem lgood_dopI2P (m : Compu.Method) (v : IVal) : LGood (dopI2P m v : LogM (Option IVal)) := by
   unfold dopI2P
-  repeat (first | exact good_methodI2P _ _ _ | good1)
+  repeat (first | exact lgood_methodI2P _ _ _ | lgood1)
 
-macro "good3" : tactic => `(tactic| first
-    | exact good_decodeDctL _ | exact good_dopI2P _ _ | exact good_methodI2P _ _ _ | good2)
+macro "lgood3" : tactic => `(tactic| first
+    | exact lgood_decodeDctL _ | exact lgood_dopI2P _ _ | exact lgood_methodI2P _ _ _ | lgood2)
 
 set_option maxHeartbeats 1600000 in
 /-- **The invariant of the log**, for every decoding function of the instrumented decoder, by induction on the fuel -/
-theorem good_decode_all (fuel : Nat) :
-    (∀ d, Good (decodeDopL fuel d)) ∧
-    (∀ item sz n, Good (decodeStaticItemsL item sz fuel n)) ∧
-    (∀ item n, Good (decodeNItemsL item fuel n)) ∧
-    (∀ item, Good (decodeToEndL item fuel)) ∧
-    (∀ tv td item, Good (decodeUntilMarkerL tv td item fuel)) ∧
-    (∀ p, Good (decodeParamL fuel p)) ∧
-    (∀ ps, Good (decodeParamsL fuel ps)) ∧
-    (∀ ps, Good (decodeCompositeL fuel ps)) := by
+theorem lgood_decode_all (fuel : Nat) :
+    (∀ d, LGood (decodeDopL fuel d)) ∧
+    (∀ item sz n, LGood (decodeStaticItemsL item sz fuel n)) ∧
+    (∀ item n, LGood (decodeNItemsL item fuel n)) ∧
+    (∀ item, LGood (decodeToEndL item fuel)) ∧
+    (∀ tv td item, LGood (decodeUntilMarkerL tv td item fuel)) ∧
+    (∀ p, LGood (decodeParamL fuel p)) ∧
+    (∀ ps, LGood (decodeParamsL fuel ps)) ∧
+    (∀ ps, LGood (decodeCompositeL fuel ps)) := by
   induction fuel with
   | zero =>
     refine ⟨?_, ?_, ?_, ?_, ?_, ?_, ?_, ?_⟩ <;> intros
-    · unfold decodeDopL; exact good_raise _
-    · unfold decodeStaticItemsL; exact good_raise _
-    · unfold decodeNItemsL; exact good_raise _
-    · unfold decodeToEndL; exact good_raise _
-    · unfold decodeUntilMarkerL; exact good_raise _
-    · unfold decodeParamL; exact good_raise _
-    · unfold decodeParamsL; exact good_raise _
-    · unfold decodeCompositeL; exact good_raise _
+    · unfold decodeDopL; exact lgood_raise _
+    · unfold decodeStaticItemsL; exact lgood_raise _
+    · unfold decodeNItemsL; exact lgood_raise _
+    · unfold decodeToEndL; exact lgood_raise _
+    · unfold decodeUntilMarkerL; exact lgood_raise _
+    · unfold decodeParamL; exact lgood_raise _
+    · unfold decodeParamsL; exact lgood_raise _
+    · unfold decodeCompositeL; exact lgood_raise _
   | succ fuel ih =>
     obtain ⟨ihDop, ihStatic, ihN, ihEnd, ihMark, ihParam, ihParams, ihComp⟩ := ih
     refine ⟨?_, ?_, ?_, ?_, ?_, ?_, ?_, ?_⟩
@@ -240,33 +240,33 @@ theorem good_decode_all (fuel : Nat) :
       cases d <;> unfold decodeDopL <;>
         repeat (first
           | exact ihDop _ | exact ihStatic _ _ _ | exact ihN _ _ | exact ihEnd _ | exact ihMark _ _ _ | exact ihComp _
-          | exact ihParam _ | good3)
+          | exact ihParam _ | lgood3)
     · intro item sz n
       unfold decodeStaticItemsL
-      repeat (first | exact ihDop _ | exact ihStatic _ _ _ | good3)
+      repeat (first | exact ihDop _ | exact ihStatic _ _ _ | lgood3)
     · intro item n
       unfold decodeNItemsL
-      repeat (first | exact ihDop _ | exact ihN _ _ | good3)
+      repeat (first | exact ihDop _ | exact ihN _ _ | lgood3)
     · intro item
       unfold decodeToEndL
-      repeat (first | exact ihDop _ | exact ihEnd _ | good3)
+      repeat (first | exact ihDop _ | exact ihEnd _ | lgood3)
     · intro tv td item
       unfold decodeUntilMarkerL
       repeat (first
         | exact ihDop _ | exact ihMark _ _ _
-        | (apply good_probeL)
-        | good3)
+        | (apply lgood_probeL)
+        | lgood3)
     · intro p
       cases p with
       | mk name bytePos bitPos kind =>
         unfold decodeParamL
         cases kind <;>
-        repeat (first | exact ihDop _ | good3)
+        repeat (first | exact ihDop _ | lgood3)
     · intro ps
       unfold decodeParamsL
-      repeat (first | exact ihParam _ | exact ihParams _ | good3)
+      repeat (first | exact ihParam _ | exact ihParams _ | lgood3)
     · intro ps
       unfold decodeCompositeL
-      repeat (first | exact ihParams _ | good3)
+      repeat (first | exact ihParams _ | lgood3)
 
 end OdxVerif.Codec
